@@ -259,6 +259,12 @@ impl Prop for C15 {
     }
     fn cases(tier: Tier) -> u32 { tier.pick(200_000, 6_000_000) }
     fn shards(_: Tier) -> usize { 16 }
+    /// byte-decoded cases beyond the generators' size range (magnitudes to about 10^300, degree <= 6) are skipped: a gcd of two
+    /// degree-20 polynomials over Q with 4096-bit coefficients is legitimately slow (libFuzzer timeout after 123 s)
+    fn fuzz_in_domain(c: &Case) -> bool {
+        use crate::props::c14::val_size;
+        [&c.x, &c.y, &c.g, &c.q].iter().all(|v| { let (bits, deg) = val_size(v); bits <= 1100 && deg <= 6 })
+    }
     fn run(case: &Case, _ctx: &Ctx) -> Outcome { to_outcome(run_case(case)) }
 }
 
